@@ -56,7 +56,11 @@ type GoFlags struct {
 	PackageRoot                                                string
 }
 type PyFlags struct{ JSON, SkipRuntime bool }
-type JvFlags struct{ JSON, SkipRuntime bool }
+type JvFlags struct {
+	JSON, SkipRuntime bool
+	// PackagePath: root java package (default "gen")
+	PackagePath string
+}
 type TsFlags struct{ SkipRuntime, SkipIndex, EnumsAsUnionTypes bool }
 type PhFlags struct{ JSON bool }
 
@@ -123,7 +127,11 @@ func NewPipeline(workDir string, outDir string, inputs []InputSpec, o OutputSpec
 		p.Output.Languages = append(p.Output.Languages, &codegen.OutputLanguage{Python: &python.Config{GenerateJSONMarshaller: o.Python.JSON, SkipRuntime: o.Python.SkipRuntime}})
 	}
 	if o.Java != nil {
-		p.Output.Languages = append(p.Output.Languages, &codegen.OutputLanguage{Java: &java.Config{GenerateJSONMarshaller: o.Java.JSON, SkipRuntime: o.Java.SkipRuntime, PackagePath: "gen"}})
+		pkgPath := o.Java.PackagePath
+		if pkgPath == "" {
+			pkgPath = "gen"
+		}
+		p.Output.Languages = append(p.Output.Languages, &codegen.OutputLanguage{Java: &java.Config{GenerateJSONMarshaller: o.Java.JSON, SkipRuntime: o.Java.SkipRuntime, PackagePath: pkgPath}})
 	}
 	if o.Typescript != nil {
 		p.Output.Languages = append(p.Output.Languages, &codegen.OutputLanguage{Typescript: &typescript.Config{SkipRuntime: o.Typescript.SkipRuntime, SkipIndex: o.Typescript.SkipIndex, EnumsAsUnionTypes: o.Typescript.EnumsAsUnionTypes}})
